@@ -602,15 +602,22 @@ def b_safe(line, cat):
         return False
     if w[IDX["iv_len"]] > 2048 or w[IDX["tag_len"]] > 2048:
         return False
-    ha = w[IDX["hash_alg"]]
+    ha, cm = w[IDX["hash_alg"]], w[IDX["cipher_mode"]]
     num_u1 = ha in (9, 11, 29, 30, 32, 33, 49)     # aad_len_in_bytes
     num_u2 = ha in (24, 25, 26)                    # u.GMAC.iv_len_in_bytes
     if (num_u1 and w[IDX["u1"]] > 4096) or (num_u2 and w[IDX["u2"]] > 2048):
         return False
-    for k, numeric in (("u0", False), ("u1", num_u1), ("u2", num_u2)):
-        v = w[IDX[k]]
-        if v != 0 and v < ARENA_BASE and not numeric:
-            return False     # a small integer sitting in a word that this algorithm may use as a pointer
+    sgl_all = cm in (20, 23) and w[IDX["sgl_state"]] == 3     # then `dst` is the segment count
+    for name in POINTER_FIELDS:
+        v = w[IDX[name]]
+        if v == 0 or (name == "u1" and num_u1) or (name == "u2" and num_u2) or (name == "dst" and sgl_all):
+            continue
+        if name in ("cipher_func", "hash_func"):
+            if v != FN_TOKEN:
+                return False
+            continue
+        if not (ARENA_BASE <= v < ARENA_BASE + ARENA_SIZE - 0x20000):
+            return False     # a non-NULL word that is not a buffer of ours sitting in a field the library may dereference
     ns = w[31]
     return all(w[32 + 3 * i + 2] <= 0x1000 for i in range(ns))
 
